@@ -125,17 +125,17 @@ func main() {
 	}
 }
 
-const connsimHook = `package comm
+const connsimHook = `package net
 
 import (
 	"crypto/tls"
-	"net"
+	stdnet "net"
 	"strings"
 )
 
 // VerifDialer, when set by the simulator, provides the byte stream of an outgoing connection.
 // Present only in binaries built by /verif (go build -overlay); the shipped package calls tls.Dial.
-var VerifDialer func(network, addr string) (net.Conn, error)
+var VerifDialer func(network, addr string) (stdnet.Conn, error)
 
 func verifDialTLS(network, addr string, cfg *tls.Config) (*tls.Conn, error) {
 	d := VerifDialer
